@@ -86,6 +86,16 @@ def forms_6502():
                     yield it('%s *+2+(%d)' % (m, dist), [op, dist & 0xff], sig)
                 for dist in (-130, -129, 128, 129):
                     yield it('%s *+2+(%d)' % (m, dist), 'ERR', sig + '/range')
+                # the same limits with the target given as a label, in front of and behind the branch
+                for k, dist in enumerate((-128, -3, 0, 127, -129, 128, 200)):
+                    at = 0x2000 + 0x400 * (op & 0x0f) + 0x4000 * (op >> 7) + 0x1000 * k // 8 * 0 + 0x20 * 0
+                    at = 0x1000 + (op >> 5) * 0x1000 + k * 0x200 + 0x100
+                    lab = 't%02x%d' % (op, k)
+                    if dist < 0:
+                        txt = 'org %d\n%s:\n\torg %d\n\t%s %s' % (at + 2 + dist, lab, at, m, lab)
+                    else:
+                        txt = 'org %d\n\t%s %s\n\torg %d\n%s:' % (at, m, lab, at + 2 + dist, lab)
+                    yield it(txt, [op, dist & 0xff] if -128 <= dist <= 127 else 'ERR', sig + ('/label' if -128 <= dist <= 127 else '/label-range'), at=at)
     # illegal mode combinations adjacent to legal ones
     for line in ('sta #1', 'stx $12,x', 'ldx $12,x', 'ldy $12,y', 'jmp ($12),y', 'jsr ($1234)', 'inc a', 'bit #1', 'cpx $12,x', 'lda ($12),x', 'lda ($12,y)', 'asl #1', 'jmp #1'):
         yield it(line, 'ERR', '6502/illegal-mode')
@@ -882,7 +892,26 @@ def forms_avr_reduced():
     yield it('add r16,r7', 'ERR', S + 'ADD/register')
 
 
+def forms_avr_large():
+    """ATmega2560 (128K words of flash): JMP/CALL k with 22 address bits - 1001 010k kkkk 110k / kkkk kkkk kkkk kkkk (CALL: ...111k)"""
+    S = 'avr-large/'
+
+    def w(v):
+        return [v & 0xff, v >> 8]
+    for mn, base in (('jmp', 0x940C), ('call', 0x940E)):
+        for k in (0, 1, 0xfffe, 0xffff, 0x10000, 0x10001, 0x12345, 0x1fffe, 0x1ffff):
+            yield it('%s %d' % (mn, k), w(base | ((k >> 17) & 0x1f) << 4 | ((k >> 16) & 1)) + w(k & 0xffff), S + mn.upper())
+        yield it('%s 4194304' % mn, 'ERR', S + mn.upper() + '/range')
+    for k in (0, 1, 0xffff):
+        yield it('lds r5,%d' % k, w(0x9000 | 5 << 4) + w(k), S + 'LDS')
+        yield it('sts %d,r5' % k, w(0x9200 | 5 << 4) + w(k), S + 'STS')
+    yield it('eijmp', w(0x9419), S + 'EIJMP')
+    yield it('eicall', w(0x9519), S + 'EICALL')
+    yield it('elpm', w(0x95D8), S + 'ELPM')
+
+
 ISAS = {
+    'avr-large': dict(cpu='atmega2560', gen=forms_avr_large, slot=4),
     'avr-reduced-core': dict(cpu='attiny10', gen=forms_avr_reduced, slot=4),
     '6502': dict(cpu='6502', gen=forms_6502, slot=8),
     '8080': dict(cpu='8080', gen=forms_8080, slot=8),
